@@ -32,6 +32,9 @@ func (e *env) addrPool() []util.Uint160 {
 	}
 	res = append(res, e.holder)
 	res = append(res, e.empties...)
+	// accounts nobody holds a key for: the Balance contract's own address (seeded change C02-4: "the account is
+	// the contract making the call" compared with the executing contract), Netmap's, and the all-zero address
+	res = append(res, e.bal, e.nm, util.Uint160{})
 	return res
 }
 
